@@ -8,6 +8,7 @@ from collections import namedtuple
 
 from .. import peg as g
 from ..objectmodel import Node
+from ..contexts.ast import AST
 from ..util import deprecated_params, safe_name, topsort
 from ..util.indent import IndentPrintMixin
 from .boilerplt import HEADER
@@ -129,8 +130,11 @@ class PythonModelGenerator(IndentPrintMixin):
         if not specs:
             return
         spec = specs[0]
+        # NOTE: the attribute names are the keys of the rule's AST, which
+        #   spells names that are members of dict (items, keys...) with a '_'
+        astkey = AST()._safekey
         arguments = sorted(
-            {safe_name(d) for d in rule.defines_single + rule.defines_list}
+            {safe_name(astkey(d)) for d in rule.defines_single + rule.defines_list}
         )
 
         self.print()
